@@ -8,6 +8,12 @@ TB = ("Trusted: Lean 4.33.0 kernel; axioms propext/Quot.sound/Classical.choice o
       "working tree on every run (differential, exhaustive on the small axes, sampled elsewhere); Go stdlib semantics written into the model.")
 
 CLAIMS = {
+ "C04": dict(
+   text="Lean theorem C04 (Properties/C04.lean): for every payload of n>=1 registers, every content of the slice's spare capacity, every start address with start+n <= 65536 (windows ending at 65535 included), every one of the 23 accessors, every byte/word order and every requested address 0..65535, the model accessor returns exactly Spec.access: the decoding of the wire bytes of the addressed registers when they all lie in the window, an error otherwise - hence no panic and no dependence on bytes outside the payload. (The unrepaired uint16 window arithmetic violated this; repaired in 03e4f05.) Tie to the code: window sizes 1..125 x window positions at 0 / ending at 65536 / around 32768 x addresses across both edges and start+-32768 x all accessors x 9 orders x string lengths 1..255, exact and poisoned capacity.",
+   ref="DESIGN.md §3 C04", technique="Lean 4 proof (window arithmetic over Nat vs uint16, per-accessor decoding lemmas) + differential correspondence check"),
+ "C13": dict(
+   text="Lean theorems (Properties/C13.lean): every accessor returns the payload unchanged; for every sequence of accessor calls the payload afterwards equals the payload before and each result equals the result of that call made alone, hence repetition and any reordering give the same results. The statement is immediate in the model because (after repair 03f4be9) no accessor writes; what ties it to the code is the correspondence check, which compares the real payload bytes after sequences of 1..24 calls (overlaps, repeats, permutations) and each result with a solo call on a fresh copy.",
+   ref="DESIGN.md §3 C13", technique="Lean 4 proof (state-passing model, induction over call sequences) + differential correspondence check"),
  "C02": dict(
    text="Lean theorems (Properties/C02.lean): for every well-formed response value of FC1-6/15/16/23 (byte count = payload length 1..255, arbitrary payload bytes, any transaction/unit id) the per-function parser, the dispatcher and (RTU) the CRC-checking dispatcher return exactly that value from its encoding, so the re-encoding is the frame; ANY 9-byte TCP / 5-byte RTU frame with the high bit of the function byte set is returned as the typed exception carrying unit, function-128 and code (or ErrInvalidCRC), never a value; a byte-count response whose length disagrees with its byte count is an error. FC17's variable layout is covered by the correspondence check only. Tie to the code: every byte count 0..255 x actual length (-2..+2) x FC1/2/3/4/23/17 x TCP/RTU x all parse paths, every length of the fixed-size responses, all 128x256 exception frames.",
    ref="DESIGN.md §3 C02", technique="Lean 4 proof (symbolic evaluation of response parsers on encoded frames) + differential correspondence check"),
